@@ -53,6 +53,25 @@ fn answers(a: &Value, b: &Value) -> (bool, bool, bool, bool) {
 			routes.push(x.unordered_eq(&v[0]));
 		}
 	}
+	// values annotated with metadata (locspan::Meta): unordered-equal iff the metadata are equal and the values are
+	// unordered-equal; vectors of them item by item
+	{
+		use locspan::Meta;
+		routes.push(Meta(a.clone(), 7u8).unordered_eq(&Meta(b.clone(), 7u8)));
+		routes.push(Meta(b.clone(), "m").unordered_eq(&Meta(a.clone(), "m")));
+		routes.push(vec![Meta(a.clone(), 1u8), Meta(b.clone(), 2u8)].unordered_eq(&vec![Meta(b.clone(), 1u8), Meta(a.clone(), 2u8)]));
+		routes.push(Unordered(Meta(a.clone(), ())) == Unordered(Meta(b.clone(), ())));
+		let differ = [
+			Meta(a.clone(), 7u8).unordered_eq(&Meta(b.clone(), 8u8)),
+			Meta(a.clone(), 7u8).unordered_eq(&Meta(a.clone(), 8u8)),
+			vec![Meta(a.clone(), 1u8), Meta(b.clone(), 2u8)].unordered_eq(&vec![Meta(a.clone(), 1u8), Meta(b.clone(), 3u8)]),
+			vec![Meta(a.clone(), 1u8)].unordered_eq(&vec![Meta(a.clone(), 1u8), Meta(a.clone(), 1u8)]),
+			vec![a.clone(), b.clone()].unordered_eq(&vec![a.clone()]),
+		];
+		if differ.iter().any(|d| *d) {
+			routes.push(!ab);
+		}
+	}
 	if routes.iter().any(|r| *r != ab) {
 		w2 = !ab;
 	}
